@@ -888,13 +888,14 @@ def step (cfg : Cfg) (w : World) : Op → Option (World × List Ev)
     -- one loop pass whose last task destroys the services and the Terminal: the tasks queued before run (the
     -- disconnects asked for by handlers, the exit tasks), but the disconnect tasks that the exit tasks of
     -- telnet / raw-TCP sessions queue in this very pass are still in the loop when their service dies:
-    -- cancelled by its destructor (patch 10), else run on the destroyed object
+    -- cancelled by its destructor (patch 10), else run on the destroyed object. (All clients lose their
+    -- connection when the service is destroyed; the harness reports none of that.)
     let c := closeEnding [4, 5, 6] w.slots
     let r := runExits cfg w.exits c.1
     let late := r.2.any (· = .closed)
     let evs : List Ev := if late ∧ !cfg.cancelEnd then [.bad .useAfterFree] else []
     some ({ tel := w.tel, rpc := w.rpc, depth := w.depth },
-          c.2 ++ r.2.filter (· ≠ .closed) ++ evs ++ opLine "passdown")
+          r.2.filter (· ≠ .closed) ++ evs ++ opLine "passdown")
   | .opt n =>
     let x := w.slot w.cur
     if n < 4 ∧ x.fstate ≠ 0 then
